@@ -41,6 +41,8 @@ ReqSites(k) ==
             THEN {<<"store.fetch.enter", "error">>, <<"store", "closed">>,
                   <<IF k = "atts" THEN "store.batch.enter" ELSE "store.store.enter", "error">>}
             ELSE {})
+    \* a failing batch write when the batch also holds an entry that the rules refuse by themselves (first / last position)
+    \cup (IF k = "atts" THEN {<<"store.batch.enter", "error-denied-first">>, <<"store.batch.enter", "error-denied-last">>} ELSE {})
     \cup (IF k \in {"att", "atts", "prop"} THEN {<<"record", sh>> : sh \in RecordShapes} ELSE {})
 
 Plans ==
